@@ -1236,15 +1236,23 @@ func (g *Gtp5g) CreateURR(lSeid uint64, req *ie.IE) error {
 		}
 	}
 
-	if rptTrig.PERIO() {
-		if measurePeriod <= 0 {
-			return errors.New("invalid measurement period")
-		}
-		g.ps.AddPeriodReportTimer(lSeid, urrid, measurePeriod)
+	if rptTrig.PERIO() && measurePeriod <= 0 {
+		return errors.New("invalid measurement period")
 	}
 
 	oid := gtp5gnl.OID{lSeid, uint64(urrid)}
-	return gtp5gnl.CreateURROID(g.client, g.link.link, oid, attrs)
+	err = gtp5gnl.CreateURROID(g.client, g.link.link, oid, attrs)
+	if err != nil {
+		return err
+	}
+
+	// only a URR that is installed is queried periodically: a refused create
+	// (e.g. a duplicate id with another period) must not leave a registration
+	// behind that a later Remove URR cannot find
+	if rptTrig.PERIO() {
+		g.ps.AddPeriodReportTimer(lSeid, urrid, measurePeriod)
+	}
+	return nil
 }
 
 func (g *Gtp5g) UpdateURR(lSeid uint64, req *ie.IE) ([]report.USAReport, error) {
